@@ -923,3 +923,536 @@ def c12_oracle(c, impl_line):
             if dedup_first(allp) != main['paths'].split(',')[1:-1]:
                 f.append('Split parts do not concatenate to the original frame paths')
     return f
+
+
+# ------------------------------------------------------------------ C05
+
+LIST_DIRS = ['/a/b', '/a/b/', 'rel', './rel', 'x/../rel', '', '/a/./b', '/c', 'a//b', '/']
+LIST_BASES = ['foo.', 'foo_', 'bar.', 'a', 'img-', 'v2_', 's', 'x,', 'shot_010_', 'foo', 'foo.bar.', 'y', 'ab-', '']
+LIST_EXTS = ['.exr', '.jpg', '.tar.gz', '', '.1.ext', '.a.jpg', '.tif', '.e7']
+SINGLES = ['readme.txt', 'noext', 'file.with.dots.exr', 'a.b.c', 'Makefile', 'x.tar.gz', 'frame_.exr', '-', '_', 'v.', 'abc.def-ghi']
+OPT_SINGLE, OPT_HIDDEN, OPT_H1, OPT_H4 = 1, 0, 2, 3
+
+
+def frame_texts(rng):
+    """frame numerals of one bucket: uniform or mixed widths, leading zeros, signs"""
+    n = rng.choice([1, 1, 2, 3, 4, 6, 9])
+    mode = rng.random()
+    out = set()
+    for _ in range(n):
+        v = rng.randint(0, rng.choice([9, 99, 120, 1100, 99999]))
+        if mode < 0.5:
+            w = 4
+        elif mode < 0.7:
+            w = 1
+        else:
+            w = rng.randint(1, 6)
+        t = str(v).rjust(w, '0') if rng.random() < 0.85 else str(v)
+        if rng.random() < 0.12 and v != 0:
+            t = '-' + t
+        out.add(t)
+    return sorted(out), ('uniform4' if mode < 0.5 else 'nat' if mode < 0.7 else 'mixed')
+
+
+def file_set(rng):
+    paths, shapes = [], set()
+    uniform = True
+    for _ in range(rng.randint(1, 3)):
+        d = rng.choice(LIST_DIRS)
+        for _ in range(rng.randint(1, 3)):
+            k = rng.random()
+            if k < 0.7:
+                b = rng.choice(LIST_BASES)
+                e = rng.choice(LIST_EXTS)
+                fts, sh = frame_texts(rng)
+                shapes.add(sh)
+                if len(set(len(t) for t in fts)) > 1:
+                    uniform = False
+                if rng.random() < 0.1:
+                    b = '.' + b
+                for t in fts:
+                    paths.append((d, b + t + e))
+            else:
+                nm = rng.choice(SINGLES)
+                if rng.random() < 0.2:
+                    nm = '.' + nm
+                shapes.add('single')
+                paths.append((d, nm))
+    full = []
+    for d, nm in paths:
+        if d == '':
+            full.append(nm)
+        elif d.endswith('/'):
+            full.append(d + nm)
+        else:
+            full.append(d + '/' + nm)
+    # distinct after cleaning
+    seen, out = set(), []
+    for p in full:
+        c = go_clean(p)
+        if c not in seen and p != '':
+            seen.add(c)
+            out.append(p)
+    return out, '+'.join(sorted(shapes)), uniform
+
+
+def c05_cases(rng, tier):
+    out = []
+    n = 1200 if tier == 'quick' else 60000
+    g = 0
+    while len(out) < n * 5:
+        paths, sh, uniform = file_set(rng)
+        if not paths:
+            continue
+        g += 1
+        base_opts = [OPT_SINGLE] + ([rng.choice([OPT_H1, OPT_H4])] if rng.random() < 0.5 else [])
+        variants = [('single', base_opts, paths),
+                    ('nosingle', [o for o in base_opts if o != OPT_SINGLE], paths),
+                    ('hidden', base_opts + [OPT_HIDDEN], paths)]
+        perm = list(paths)
+        rng.shuffle(perm)
+        variants.append(('perm', base_opts, perm))
+        perm2 = list(reversed(paths))
+        variants.append(('perm', base_opts, perm2))
+        for kind, opts, ps in variants:
+            out.append(case('list', [','.join(map(str, opts))] + ps, 'opts=%s paths=%r' % (opts, ps), kind + ':' + sh,
+                            dict(kind=kind, opts=opts, paths=ps, group=g, uniform=uniform), nontrivial=len(ps) > 1))
+    return out
+
+
+def listing_records(line_):
+    """'OK rec rec' -> list of (string, zfill, style, [paths])"""
+    toks = line_.split(' ')
+    recs = []
+    for t in toks[1:]:
+        a, z, st, ps = t.split(':')
+        recs.append((unhx(a).decode('latin-1'), int(z), int(st),
+                     [unhx(x).decode('latin-1') for x in ps.split(',')] if ps else []))
+    return recs
+
+
+def visible(paths, hidden):
+    out = []
+    for p in paths:
+        c = go_clean(p)
+        name = c.rsplit('/', 1)[-1]
+        if name.startswith('.') and not hidden:
+            continue
+        out.append(c)
+    return out
+
+
+def c05_oracle(c, impl_line):
+    m = c['meta']
+    if not impl_line.startswith('OK'):
+        return ['status ' + impl_line[:30]]
+    recs = listing_records(impl_line)
+    f = []
+    if OPT_SINGLE in m['opts']:
+        got = sorted(p for r in recs for p in r[3])
+        exp = sorted(visible(m['paths'], OPT_HIDDEN in m['opts']))
+        if got != exp:
+            missing = [p for p in exp if p not in got]
+            extra = [p for p in got if p not in exp]
+            dup = [p for p in set(got) if got.count(p) > 1]
+            f.append('not an exact cover: dropped %r invented %r twice %r' % (missing[:3], extra[:3], dup[:3]))
+    want_style = 0 if OPT_H1 in m['opts'] else 1
+    if any(r[2] != want_style for r in recs):
+        f.append('a reported sequence does not use the requested pad style')
+    return f
+
+
+def c05_group_oracle(cases):
+    """relations between the runs on one file set"""
+    fails = []
+    groups = {}
+    for c in cases:
+        if c.get('op') == 'list' and c['meta'].get('group') is not None:
+            groups.setdefault(c['meta']['group'], []).append(c)
+    for g, cs in groups.items():
+        by = {}
+        for c in cs:
+            by.setdefault(c['meta']['kind'], []).append(c)
+        if 'single' not in by or not by['single'][0]['impl'].startswith('OK'):
+            continue
+        base = by['single'][0]
+        brecs = sorted(base['impl'].split(' ')[1:])
+        for c in by.get('nosingle', []):
+            if not c['impl'].startswith('OK'):
+                continue
+            recs = c['impl'].split(' ')[1:]
+            rest = list(brecs)
+            bad = False
+            for r in recs:
+                if r in rest:
+                    rest.remove(r)
+                else:
+                    bad = True
+            # what is dropped must be single files (one path each)
+            if bad or any(len(listing_records('OK ' + r)[0][3]) != 1 for r in rest):
+                fails.append((c, ['without SingleFiles the result is not the single-files result minus the non-sequences']))
+        if base['meta']['uniform']:
+            bset = set(r.split(':')[0] for r in brecs)
+            for c in by.get('perm', []):
+                if c['impl'].startswith('OK'):
+                    pset = set(r.split(':')[0] for r in c['impl'].split(' ')[1:])
+                    if pset != bset:
+                        fails.append((c, ['the set of sequence strings depends on the order of the input list: %r vs %r' % (
+                            sorted(unhx(x) for x in pset ^ bset)[:4], '')]))
+    return fails
+
+
+def c05_compare(c, il, ml):
+    """mixed-width buckets: the grouping may depend on the unstable sort; compare the
+    covered paths only.  Uniform buckets: compare the records as multisets."""
+    if not (il.startswith('OK') and ml.startswith('OK')):
+        return [] if il.split(' ')[0] == ml.split(' ')[0] else ['status impl=%s model=%s' % (il[:10], ml[:10])]
+    if c['meta'].get('uniform', True):
+        a, b = sorted(il.split(' ')[1:]), sorted(ml.split(' ')[1:])
+        return [] if a == b else ['listing differs: impl-only %r model-only %r' % (
+            [unhx(x.split(':')[0]) for x in a if x not in b][:3], [unhx(x.split(':')[0]) for x in b if x not in a][:3])]
+    pa = sorted(p for r in listing_records(il) for p in r[3])
+    pb = sorted(p for r in listing_records(ml) for p in r[3])
+    return [] if pa == pb else ['covered paths differ']
+
+
+# ------------------------------------------------------------------ C06
+
+def reorder_line(c, order):
+    """the same disk case with its entries in Readdir order"""
+    m = c['meta']
+    byname = {e.split(':', 1)[1]: e for e in m['ents']}
+    ents = [byname[n] for n in order if n in byname] + [e for e in m['ents'] if e.split(':', 1)[1] not in order]
+    if c['op'] == 'disk':
+        return line('disk', ','.join(map(str, m['opts'])), m['path'], m['readable'], *ents)
+    return line('findseq', ','.join(map(str, m['opts'])), m['st'], m['pat'], m['readable'], *ents)
+
+
+DISK_NAMES = ['foo.0001.exr', 'foo.0002.exr', 'foo.0003.exr', 'foo.10.exr', 'bar.1.jpg', 'bar.2.jpg', 'readme.txt',
+              '.hidden', '.hid.0001.exr', '.hid.0002.exr', 'noext', 'a.tar.gz', 'sub', 'sub2', 'img-5.tif', 'img-6.tif',
+              'x.0100.1.ext', 'x.0101.1.ext', 'lnk', 'lnk.0001.exr', 'v2_001.e7', 'v2_002.e7']
+
+
+def disk_dir(rng, n):
+    import infra as _i
+    root = _i.disk_root()
+    cdir = 'c%d' % n
+    ents = []
+    names = rng.sample(DISK_NAMES, rng.randint(0, 9))
+    dangling = False
+    for nm in names:
+        k = rng.random()
+        if nm.startswith('sub') or k < 0.12:
+            kind = 'D'
+        elif k < 0.2:
+            kind = 'LF'
+        elif k < 0.27:
+            kind = 'LD'
+        elif k < 0.3:
+            kind = 'LX'
+            dangling = True
+        else:
+            kind = 'F'
+        ents.append('%s:%s' % (kind, nm))
+    sp = rng.randrange(6)
+    rel = cdir + '/d'
+    path = [rel, rel + '/', './' + rel, root + '/' + rel, root + '/' + rel + '/', cdir + '//d'][sp]
+    readable = 0 if rng.random() < 0.05 else 1
+    return path, ents, readable, dangling, ['rel', 'rel/', './rel', 'abs', 'abs/', 'dbl-slash'][sp]
+
+
+def c06_cases(rng, tier):
+    out = []
+    n = 700 if tier == 'quick' else 8000
+    for i in range(n):
+        path, ents, readable, dangling, sp = disk_dir(rng, i)
+        opts = [o for o in (OPT_SINGLE, OPT_HIDDEN, rng.choice([OPT_H1, OPT_H4])) if rng.random() < 0.5]
+        if rng.random() < 0.15:
+            opts = ['LISTFILES']
+        out.append(case('disk', [','.join(map(str, [OPT_SINGLE] if opts == ['LISTFILES'] else opts)), path, readable] + ents,
+                        'path=%r opts=%s readable=%d entries=%r' % (path, opts, readable, ents),
+                        sp + (':dangling' if dangling else '') + (':unreadable' if not readable else ''),
+                        dict(path=path, ents=ents, opts=[OPT_SINGLE] if opts == ['LISTFILES'] else opts, readable=readable, dangling=dangling),
+                        nontrivial=len(ents) > 1))
+    return out
+
+
+def c06_oracle(c, impl_line):
+    m = c['meta']
+    f = []
+    if not m['readable'] or m['dangling']:
+        if not impl_line.startswith('ERR'):
+            f.append('a directory that cannot be read / holds a dangling symlink gave %s' % impl_line[:40])
+        return f
+    if not impl_line.startswith('OK'):
+        return ['status ' + impl_line[:30]]
+    prefix = go_clean(m['path']) + '/'
+    files = [e.split(':', 1)[1] for e in m['ents'] if e.split(':', 1)[0] in ('F', 'LF')]
+    for r in listing_records(impl_line):
+        for p in r[3]:
+            if not p.startswith(prefix) or '/' in p[len(prefix):]:
+                f.append('reported path %r does not lie directly under %r' % (p, prefix))
+            elif OPT_SINGLE in m['opts'] and p[len(prefix):] not in files:
+                f.append('reported path %r is not a regular file or link to one' % p)
+    return f
+
+
+def c06_extra_lines(c, impl):
+    m = c['meta']
+    if not m['readable'] or m['dangling']:
+        return []
+    prefix = go_clean(m['path']) + '/'
+    kinds = {e.split(':', 1)[1]: e.split(':', 1)[0] for e in m['ents']}
+    names = c.get('order') or [e.split(':', 1)[1] for e in m['ents']]
+    files = [prefix + n for n in names if kinds.get(n) in ('F', 'LF')]
+    return [line('list', ','.join(map(str, m['opts'])), *files)]
+
+
+def c06_extra_oracle(c, impl, extra):
+    a = sorted(c['impl'].split(' ')[1:])
+    b = sorted(extra[0].split(' ')[1:]) if extra else []
+    if c['impl'].split(' ')[0] != extra[0].split(' ')[0] or a != b:
+        return ['scanning the directory differs from listing its non-directory entries: disk-only %r list-only %r' % (
+            [unhx(x.split(':')[0]) for x in a if x not in b][:3], [unhx(x.split(':')[0]) for x in b if x not in a][:3])]
+    return []
+
+
+# ------------------------------------------------------------------ C07
+
+def c07_cases(rng, tier):
+    import infra as _i
+    root = _i.disk_root()
+    out = []
+    n = 900 if tier == 'quick' else 12000
+    for i in range(n):
+        base = rng.choice(['foo.', 'foo_', 'bar.', 'shot_010_', 'img_', 'a'])
+        ext = rng.choice(['.exr', '.jpg', '.tar.gz', '.1.ext', ''])
+        w = rng.choice([1, 2, 3, 4, 4, 4, 5])
+        uniform = rng.random() < 0.6
+        frames = sorted(set(rng.randint(0, 10 ** min(w, 3)) for _ in range(rng.randint(0, 6))))
+        names = []
+        for v in frames:
+            ww = w if uniform else rng.choice([w, w, 1, w + 1])
+            names.append(base + str(v).rjust(ww, '0') + ext)
+        if rng.random() < 0.15 and frames:
+            names.append(base + '-' + str(rng.randint(1, 20)).rjust(max(w - 1, 1), '0') + ext)
+        sib = [base + ext, base[:-1] if len(base) > 1 else 'q', base + 'bar' + ext, base + '1-5' + ext, base + ext + '.bak',
+               'x' + base + '0001' + ext, base + '+5' + ext, base + '1e3' + ext, base + '0001' + ext + 'x', base + '.' + ext,
+               base + '12a' + ext, base + ' 7' + ext, base + '99999999999999999999' + ext]
+        ents = ['F:' + x for x in names]
+        for x in rng.sample(sib, rng.randint(0, 5)):
+            if x and x not in names and '/' not in x:
+                ents.append(rng.choice(['F:', 'F:', 'F:', 'D:', 'LF:']) + x)
+        ents = list(dict.fromkeys(ents))
+        ents = [e for j, e in enumerate(ents) if e.split(':', 1)[1] not in [x.split(':', 1)[1] for x in ents[:j]]]
+        k = rng.randrange(10)
+        padtok = ['#', '@' * w, '%0' + str(w) + 'd', '$F' + str(w), '<UDIM>', '%(UDIM)d', '@', '##'][rng.randrange(8)]
+        if k < 6:
+            mid, pw = padtok, None
+        elif k == 6:
+            mid = '1-5' + padtok
+        elif k == 7:
+            mid = str(rng.randint(0, 99)).rjust(w, '0')      # concrete frame
+        elif k == 8:
+            mid = ''                                          # no pad at all
+        else:
+            mid = padtok
+        sp = rng.randrange(3)
+        d = ['c%d/d/' % i, './c%d/d/' % i, root + '/c%d/d/' % i][sp]
+        pat = d + base + mid + ext
+        st = rng.choice([0, 1])
+        opts = [4] if rng.random() < 0.4 else []
+        if rng.random() < 0.2:
+            opts.append(rng.choice([2, 3]))
+        readable = 0 if rng.random() < 0.04 else 1
+        shape = ('pad' if k < 6 or k == 9 else 'range' if k == 6 else 'frame' if k == 7 else 'nopad') + (':strict' if 4 in opts else '')
+        out.append(case('findseq', [','.join(map(str, opts)), st, pat, readable] + ents,
+                        'pattern=%r style=%d opts=%s readable=%d entries=%r' % (pat, st, opts, readable, ents), shape,
+                        dict(pat=pat, d=d, base=base, ext=ext, mid=mid, st=st, opts=opts, ents=ents, readable=readable, kind=shape.split(':')[0])))
+    return out
+
+
+def c07_oracle(c, impl_line):
+    m = c['meta']
+    if impl_line.startswith('PANIC'):
+        return ['FindSequenceOnDisk panicked']
+    if not m['readable']:
+        return [] if impl_line.startswith('ERR') else ['a missing directory gave %s' % impl_line[:30]]
+    if impl_line.startswith('ERR'):
+        return ['error on a readable directory']
+    f = []
+    files = set(e.split(':', 1)[1] for e in m['ents'] if e.split(':', 1)[0] in ('F', 'LF'))
+    if m['kind'] == 'nopad' or m['kind'] == 'frame':
+        base, ext = None, None      # the pattern's own base/ext come from the single-file parse; soundness only
+    else:
+        base, ext = m['base'], m['ext']
+    if impl_line == 'OK nil':
+        got = None
+    else:
+        toks = impl_line.split(' ')
+        rec = listing_records('OK ' + toks[1])[0]
+        kv = dict(t.split('=', 1) for t in toks[2:])
+        got = rec
+        prefix = m['d']
+        for p in rec[3]:
+            if not p.startswith(prefix) or p[len(prefix):] not in files:
+                f.append('frame path %r of the returned sequence does not exist on disk' % p)
+                break
+        if base is not None and (unhx(kv['base']).decode('latin-1') != base or unhx(kv['ext']).decode('latin-1') != ext):
+            f.append('returned base/ext %r/%r, pattern has %r/%r' % (unhx(kv['base']), unhx(kv['ext']), base, ext))
+    if base is not None:
+        st = 0 if 2 in m['opts'] else 1 if 3 in m['opts'] else m['st']
+        texts = []
+        for nm in files:
+            if nm.startswith(base) and nm.endswith(ext) and len(nm) >= len(base) + len(ext):
+                t = nm[len(base):len(nm) - len(ext)] if ext else nm[len(base):]
+                if re.fullmatch(r'-?\d+', t, re.ASCII) and abs(int(t)) < 2 ** 63:
+                    texts.append(t)
+        widths = set(len(t) for t in texts)
+        if texts and len(widths) == 1:
+            w0 = widths.pop()
+            padtok = re.sub(r'^[\d,:xy-]*', '', m['mid'])
+            wp = py_pad_size(st, padtok) if padtok else None
+            strict = 4 in m['opts'] and padtok
+            if strict and wp != w0:
+                if got is not None:
+                    f.append('StrictPadding returned files of width %d for a pattern of width %d' % (w0, wp))
+            else:
+                exp = sorted(m['d'] + base + t + ext for t in texts)
+                if got is None:
+                    f.append('files %r share one width but nothing was returned' % exp[:3])
+                elif sorted(got[3]) != exp:
+                    f.append('uniform-width files: returned %r, on disk %r' % (sorted(got[3])[:4], exp[:4]))
+    return f
+
+
+# ------------------------------------------------------------------ C14
+
+def c14_cases(rng, tier):
+    out = []
+    n = 300 if tier == 'quick' else 20000
+    for _ in range(n):
+        mag = rng.choice([10 ** 6, 10 ** 9, 10 ** 12, 10 ** 13])
+        a = rng.randint(-mag, mag)
+        b = rng.randint(-mag, mag)
+        if rng.random() < 0.3:
+            a, b = -mag, mag
+        if rng.random() < 0.1:
+            a, b = 1, 10 ** 12
+        st = rng.choice([None, None, 1, 2, 3, 7, 1000, 10 ** 6, rng.randint(1, 10 ** 6)])
+        neg = st is not None and rng.random() < 0.3
+        r = '%d-%d' % (a, b) if st is None else '%d-%dx%d' % (a, b, -st if neg else st)
+        k = st or 1
+        n_ = abs(b - a) // k + 1
+        d = k if a <= b else -k
+        idxs = [0, 1, n_ - 1, n_, -1, n_ // 2, rng.randrange(n_), rng.randrange(n_)]
+        vals = [a, b, a + d * (n_ - 1), a + d * rng.randrange(n_), a + d * rng.randrange(n_) + (1 if k > 1 else 0),
+                a - d, a + d * n_, min(a, b) - 5, max(a, b) + 5]
+        out.append(case('big', [r, ','.join(map(str, idxs)), ','.join(map(str, vals))], r, 'plain' if st is None else 'stepped',
+                        dict(a=a, b=b, k=k, d=d, n=n_, idxs=idxs, vals=vals, r=r)))
+    return out
+
+
+def c14_oracle(c, impl):
+    st, kv, bare = impl
+    m = c['meta']
+    if st != 'OK':
+        return ['status ' + st]
+    f = []
+    a, d, n = m['a'], m['d'], m['n']
+    last = a + d * (n - 1)
+    if int(kv['len']) != n or int(kv['start']) != a or int(kv['end']) != last:
+        f.append('len/start/end %s/%s/%s, closed form %d/%d/%d' % (kv['len'], kv['start'], kv['end'], n, a, last))
+    vals = kv['value'].split(',')
+    for i, v in zip(m['idxs'], vals):
+        exp = str(a + d * i) if 0 <= i < n else 'E'
+        if v != exp:
+            f.append('frame(%d) = %s, closed form %s' % (i, v, exp))
+    idx = zl(kv['index'])
+    for v, ix, h in zip(m['vals'], idx, kv['has']):
+        mem = (v - a) % d == 0 and 0 <= (v - a) // d < n
+        exp = (v - a) // d if mem else -1
+        if ix != exp or (h == '1') != mem:
+            f.append('index(%d)/has = %d/%s, closed form %d/%s' % (v, ix, h, exp, mem))
+    if kv.get('qstr') == 'ERR':
+        f.append('sequence with this range does not parse')
+    else:
+        if int(kv['qlen']) != n:
+            f.append('sequence length %s' % kv['qlen'])
+        if unhx(kv['p0']).decode() != '/x/foo.' + py_zfill(a, 4) + '.exr' or unhx(kv['plast']).decode() != '/x/foo.' + py_zfill(last, 4) + '.exr' or kv['pout'] != '-':
+            f.append('frame paths at the ends are wrong')
+    if int(kv['M_alloc']) > (1 << 20):
+        f.append('allocated %s bytes for a single-component range (limit 1 MiB): enumeration?' % kv['M_alloc'])
+    if int(kv['M_us']) > 2000000:
+        f.append('took %s us (limit 2 s): enumeration?' % kv['M_us'])
+    return f
+
+
+# ------------------------------------------------------------------ C15
+
+def mutate(rng, s):
+    k = rng.randrange(7)
+    if not s:
+        return rng.choice(['', '#', '\n', '%', '\xff'])
+    i = rng.randrange(len(s))
+    if k == 0:
+        return s[:i] + s[i + 1:]
+    if k == 1:
+        return s[:i] + rng.choice(['#', '@', '%d', '$F', '<UDIM>', '\n', '\xff', '\xc3', '{{', '}}', '.', '/', '-', ',', 'x', '%(UDIM)d', ' ', '\\', '0', '00']) + s[i:]
+    if k == 2:
+        return s[:i] + s[i:] + s[i:]
+    if k == 3:
+        j = rng.randrange(len(s))
+        return s[:min(i, j)] + s[max(i, j):]
+    if k == 4:
+        return s[i:] + s[:i]
+    if k == 5:
+        return s[:i] + chr(rng.randrange(256)) + s[i + 1:]
+    return s + rng.choice(['.exr', '#', '@@', '.', '/', '1-5', '%04d'])
+
+
+def c15_cases(rng, tier):
+    out = []
+    n = 6000 if tier == 'quick' else 200000
+    seeds = ['/a/b/foo.1-10x2#.exr', 'foo.0001.exr', '/x/y.1-5,7,9-20:3@@.tar.gz', 'a.%04d.b', 'c.$F3.d', 'u.<UDIM>.tif',
+             '.ext', 'noext', '/', '', 'a/b/', '1-5', '#', 'x.{{dir}}.1#.e', 'foo.-5--1@.e', 'v2_001.exr', '1-10y3', '10-1:2']
+    for i in range(n):
+        s = rng.choice(seeds)
+        for _ in range(rng.randint(0, 4)):
+            s = mutate(rng, s)
+        s = re.sub(r'\d{5,}', lambda mm: mm.group(0)[:4], s)
+        k = rng.randrange(8)
+        st = rng.choice([0, 1, 7, -1])
+        if k == 0:
+            out.append(case('fs', [s], repr(s), 'fs', dict(s=s)))
+        elif k == 1:
+            out.append(case('seq', [s, st, '5', 'abc', '-3'], repr(s), 'seq', dict(s=s)))
+        elif k == 2:
+            ops = [rng.choice('DBEPSRNF') + mutate(rng, rng.choice(['x', '/d', '.e', '#', '1', '1-5', '7', '%d'])) for _ in range(rng.randint(1, 5))]
+            ops = [re.sub(r'\d{5,}', lambda mm: mm.group(0)[:4], o) for o in ops]
+            out.append(case('seqops', [s, st] + ops, repr((s, ops)), 'seqops', dict(s=s)))
+        elif k == 3:
+            out.append(case('padfr', [s, rng.randint(-2, 9)], repr(s), 'padfr', dict(s=s)))
+        elif k == 4:
+            ps = [mutate(rng, s) for _ in range(rng.randint(1, 4))]
+            ps = [re.sub(r'\d{5,}', lambda mm: mm.group(0)[:4], p) for p in ps]
+            out.append(case('list', [','.join(map(str, rng.sample([0, 1, 2, 3, 4, 9], 2)))] + ps, repr(ps), 'list', dict(s=s)))
+        elif k == 5:
+            out.append(case('norm', [s], repr(s), 'norm', dict(s=s)))
+        elif k == 6:
+            out.append(case('padsize', [st, s], repr(s), 'padsize', dict(s=s)))
+        else:
+            out.append(case('seq', [s, st], repr(s), 'seq', dict(s=s)))
+    return out
+
+
+def c15_oracle(c, impl_line):
+    f = []
+    st = impl_line.split(' ')[0]
+    if st in ('PANIC', 'NOOUTPUT'):
+        f.append('the call panicked / the driver died')
+    if c['op'] == 'fs':
+        kv = dict(t.split('=', 1) for t in impl_line.split(' ')[1:] if '=' in t)
+        if (kv.get('isfr') == '1') != (st == 'OK'):
+            f.append('IsFrameRange = %s but NewFrameSet %s' % (kv.get('isfr'), 'succeeds' if st == 'OK' else 'fails'))
+    return f
